@@ -126,6 +126,15 @@ def spellings(shape, xp, yp):
                             parts.append(f'{LONG[ax][q]}="{ph[(ax, q)]}"')
                 return " ".join(parts)
             out.append((f"mixed-{'rx' if xr else 'w'}-{'ry' if yr else 'h'}", mixed, {"half_x": xr, "half_y": yr}))
+    # an ellipse accepts the plain radius spelling r for the one axis whose length is not fixed by two positions
+    if shape == "ellipse" and (("l" in xp) != ("l" in yp)):
+        def er(ph):
+            parts = []
+            for ax, pair in (("x", xp), ("y", yp)):
+                for q in pair:
+                    parts.append(f'r="{ph[(ax, q)]}"' if q == "l" else f'{LONG[ax][q]}="{ph[(ax, q)]}"')
+            return " ".join(parts)
+        out.append(("ellipse-r", er, {"half_x": "l" in xp, "half_y": "l" in yp}))
     return out
 
 
